@@ -20,6 +20,7 @@ package vault
 //vx:redirect (*github.com/openbao/openbao/v2/internal/vault/routing.Router).MatchingStorageByAPIPath vxCubbyStorage
 //vx:redirect github.com/openbao/openbao/sdk/v2/helper/salt.SaltID vxSaltFn
 //vx:redirect github.com/openbao/openbao/sdk/v2/logical.ClearView vxClearView
+//vx:redirect encoding/json.Marshal vxJSONBox
 //vx:noop github.com/hashicorp/go-metrics/compat.*
 //vx:unwind 400
 
@@ -179,7 +180,37 @@ func (v *vxView) SubView(p string) barrier.View { return &vxSubView{vxView: *v, 
 func (v *vxView) SetReadOnlyErr(error)          {}
 func (v *vxView) GetReadOnlyErr() error         { return nil }
 func (v *vxView) Get(ctx context.Context, k string) (*logical.StorageEntry, error) { return nil, vxStep() }
-func (v *vxView) Put(ctx context.Context, e *logical.StorageEntry) error          { return vxStep() }
+func (v *vxView) Put(ctx context.Context, e *logical.StorageEntry) error {
+	if err := vxStep(); err != nil {
+		return err
+	}
+	switch v.kind {
+	case "parent":
+		// the one scheduling point modelled for child creation: between "the parent exists" (looked up just before)
+		// and the write of the parent index, another request may run to completion
+		if f := vxAtParentIndexWrite; f != nil {
+			vxAtParentIndexWrite = nil
+			f()
+		}
+		vxW.parentIdx = append(vxW.parentIdx, v.nsPfx()+e.Key)
+	case "id":
+		te := &logical.TokenEntry{}
+		if vxUnbox(e.Value, te) {
+			if i := vxFindTok(e.Key); i >= 0 {
+				vxW.tokens[i] = te
+			} else {
+				vxW.tokens = append(vxW.tokens, te)
+			}
+		}
+	case "accessor":
+		vxW.accIdx = append(vxW.accIdx, e.Key)
+	}
+	return nil
+}
+
+var vxAtParentIndexWrite func()
+
+func vxJSONBox(v any) ([]byte, error) { return vxBox(v), nil }
 func (v *vxView) ListPage(ctx context.Context, p, a string, l int) ([]string, error) {
 	return v.List(ctx, p)
 }
@@ -379,6 +410,38 @@ func VxRevokeTreeAcrossNamespaces() {
 	}
 	o := vxFindTok("s-O")
 	vxAssert("cross-namespace tree revoke: unrelated token untouched", o >= 0 && vxW.tokens[o].NumUses == 0)
+}
+
+// child creation racing a tree revocation of its parent (no common lock): the real storeCommon of the child is
+// interrupted at the one point that matters - after it has seen the parent exist, before it writes the parent index -
+// by a complete, successful revokeTreeInternal(parent). Afterwards no valid child of the revoked parent may exist
+// unless the creation reported an error.
+func VxChildCreateRacesTreeRevoke() {
+	ctx := namespace.RootContext(context.Background())
+	ts := vxTokenStore()
+	vxW = &vxWorld{failAt: -1}
+	vxAddToken("P", "")
+	child := &logical.TokenEntry{ID: "C", Parent: "P", Accessor: "acc-C", NamespaceID: "root", Policies: []string{"p"}}
+	raced := vxBool("the parent's tree revocation runs inside the child's creation")
+	var rerr error
+	if raced {
+		vxAtParentIndexWrite = func() { rerr = ts.revokeTreeInternal(ctx, "s-P") }
+	}
+	cerr := ts.storeCommon(ctx, child, true)
+	if !raced {
+		vxReach("create: undisturbed")
+		vxAssert("undisturbed creation stores the child under its parent", cerr == nil && vxFindTok("s-C") >= 0 && vxHas(vxW.parentIdx, "s-P/s-C"))
+		// a later tree revocation of the parent takes the child with it
+		vxAssert("later tree revocation succeeds", ts.revokeTreeInternal(ctx, "s-P") == nil)
+		vxAssert("and revokes the child", vxFindTok("s-C") < 0 && vxFindTok("s-P") < 0)
+		return
+	}
+	vxReach("create: raced by tree revocation")
+	vxAssert("the tree revocation reported success", rerr == nil)
+	vxAssert("the parent is gone", vxFindTok("s-P") < 0)
+	c := vxFindTok("s-C")
+	survives := c >= 0 && vxW.tokens[c].NumUses >= 0
+	vxAssert("a child created while its parent's tree revocation completes does not survive it (or its creation fails)", !survives || cerr != nil)
 }
 
 // ---- the real destroyCubbyhole: success means the token's cubbyhole storage (keyed exactly as the cubbyhole backend
